@@ -28,6 +28,7 @@ def parseLabel? (tok : String) : Option (Nat × Label) :=
   | [t, "qf"] => t.toNat?.map (·, Label.qf)
   | [t, "cl"] => t.toNat?.map (·, Label.cl)
   | [t, "qset"] => t.toNat?.map (·, Label.qset)
+  | [t, "cancel"] => t.toNat?.map (·, Label.cancel)
   | _ => none
 
 def parseLabels? (s : String) : Option (List (Nat × Label)) :=
